@@ -774,8 +774,10 @@ func (c *conc) req(q *gReq, n int, proto string) concReq {
 	} else {
 		rq.Qname = fmt.Sprintf("cold%d.%s", n, viewZone)
 	}
-	if (proto == "udp" || proto == "tcp") && c.r.Intn(4) == 0 {
-		rq.Mock = true // internal/mock.Writer: resolves the address from a string (always the 16-byte form)
+	// internal/mock.Writer resolves the address from a string (always the 16-byte form); it is
+	// also what Server.ServeHTTP really hands the chain for DoH
+	if ((proto == "udp" || proto == "tcp") && c.r.Intn(4) == 0) || (proto == "doh" && c.r.Intn(2) == 0) {
+		rq.Mock = true
 		rq.Form = 16
 	}
 	return rq
